@@ -8,7 +8,7 @@
    A multiprocessing.Process object is in one of three conditions: never started, alive, ended.  [Process.start] on an ended
    object raises AssertionError ("cannot start a process twice").
      * [start_orig] is start() as it is in the unrepaired tree: it fails on a process list that contains an ended process;
-     * [start] is start() after fixes/D17: an ended Process object is replaced by a fresh one with the same target, then started.
+     * [start] is start() after fixes/D20: an ended Process object is replaced by a fresh one with the same target, then started.
 
    What the operating system does is NOT modelled but assumed, as Section variables:
      [spawn]      the effect of Process.start on a fresh object          assumption: the child process comes to life
